@@ -278,3 +278,19 @@ Fixpoint drain (waiting : bool) (q : list (Z * readiness)) : list handled :=
 
 Definition expected_handling (d : Z * readiness) : handled :=
   match snd d with ReadyOk => Ran (fst d) | ReadyFails => Refused (fst d) end.
+
+(* ---- PendingRequest.fail (call.py): an active request is marked inactive, then -- only when the caller's Tub has
+   logRemoteFailures set -- a few log lines are written, then the Deferred is errbacked.  The logged method name joins the
+   interface name and the method name; for a target without RemoteInterface the interface name is None, so the join raises
+   unless the names carry fallbacks (read from the source): the exception would escape with the request already inactive
+   and its Deferred never fired. *)
+Record preq := { p_active : bool; p_fired : nat }.
+
+Inductive fail_result := FailDone (r : preq) | FailRaised (r : preq).
+
+Definition fail_request (log_remote_failures interface_known : bool) (r : preq) : fail_result :=
+  if p_active r then
+    if log_remote_failures && negb interface_known && negb log_name_has_fallback
+    then FailRaised {| p_active := false; p_fired := p_fired r |}
+    else FailDone {| p_active := false; p_fired := S (p_fired r) |}
+  else FailDone r.
